@@ -16,6 +16,7 @@ import contextlib
 import io
 
 from okdmr.dmrlib.etsi.layer2.burst import Burst
+from okdmr.dmrlib.etsi.layer2.elements.burst_types import BurstTypes as _BT
 from okdmr.dmrlib.etsi.layer2.elements.data_packet_formats import DataPacketFormats
 from okdmr.dmrlib.etsi.layer2.elements.full_message_flag import FullMessageFlag
 from okdmr.dmrlib.etsi.layer2.elements.resynchronize_flag import ResynchronizeFlag
@@ -156,7 +157,11 @@ def one_config(acc, cfg, shared=None):
     rate, confirmed, length, k, cc, fill = cfg[:6]
     sapname = cfg[6] if len(cfg) > 6 else "ShortData"
     mode = cfg[7] if len(cfg) > 7 else "one_by_one"
+    is_group, dst, src = cfg[8] if len(cfg) > 8 else (False, 2305678, 2301234)
     case = {"rate": rate, "confirmed": confirmed, "length": length, "preambles": k, "colour_code": cc, "fill": fill, "sap": sapname, "mode": mode}
+    if len(cfg) > 8:
+        case["header_addressing"] = {"is_group": is_group, "destination": dst, "source": src}
+        case["cfg"] = [list(x) if isinstance(x, tuple) else x for x in cfg]
     payload = fill_bytes(fill, length)
     n_ref, pad_ref = ref_blocks_and_pad(rate, confirmed, length)
     if n_ref > 127 or pad_ref > 31:
@@ -171,8 +176,8 @@ def one_config(acc, cfg, shared=None):
                           "number of blocks / pad octets differ from table 8.1 arithmetic")
         hdr = DataHeader(
             dpf=DataPacketFormats.DataPacketConfirmed if confirmed else DataPacketFormats.DataPacketUnconfirmed,
-            is_group=False, is_response_requested=confirmed, pad_octet_count=pad, sap_identifier=SAPIdentifier[sapname],
-            llid_destination=2305678, llid_source=2301234, full_message_flag=FullMessageFlag.FirstTryToCompletePacket,
+            is_group=is_group, is_response_requested=confirmed, pad_octet_count=pad, sap_identifier=SAPIdentifier[sapname],
+            llid_destination=dst, llid_source=src, full_message_flag=FullMessageFlag.FirstTryToCompletePacket,
             blocks_to_follow=len(data_bursts), resynchronize_flag=ResynchronizeFlag.DoNotSync, send_sequence_number=0, fragment_sequence_number=8,
         )
         userdata = payload
@@ -335,6 +340,65 @@ def worker_pairs(pairs):
     return acc
 
 
+def prehistories():
+    """(name, [33-byte bursts]) - bursts on the air before our transmission that are not part of it"""
+    from mc import bursts as B
+    from okdmr.dmrlib.etsi.layer2.elements.data_types import DataTypes
+    from bitarray import bitarray
+
+    vh = B.data_burst_bytes(B.flc_group(), DataTypes.VoiceLCHeader)
+    vt = B.data_burst_bytes(B.flc_group(terminator=True), DataTypes.TerminatorWithLC)
+    vs = (B.voice_sync_bits(bitarray("10" * 108)).tobytes(), "voice")
+    stray = {}
+    for r in ("r12", "r34", "r1"):
+        db, _ = TransmissionGenerator.generate_data_bursts(packet_type=RATES[r], userdata=fill_bytes("seed", 40), colour_code=1, is_confirmed=False)
+        stray[r] = [b.as_bytes() for b in db]
+    yield "lone_voice_terminator", [vt]
+    yield "two_voice_terminators", [vt, vt]
+    yield "voice_header_then_terminator", [vh, vt]
+    yield "voice_call", [vh, vs, vt]
+    yield "headerless_rate12_blocks", stray["r12"][:2]
+    yield "headerless_rate34_block", stray["r34"][:1]
+    yield "headerless_rate1_blocks_then_terminator", stray["r1"][:2] + [vt]
+    yield "terminator_then_headerless_block", [vt, stray["r12"][0]]
+    yield "voice_call_then_headerless_blocks", [vh, vs, vt] + stray["r34"][:2]
+
+
+def worker_prehistory(tasks):
+    acc = Acc()
+    pres = dict(prehistories())
+    for pn, cfg in tasks:
+        try:
+            rec = Rec()
+            SEAMS.tok = 0
+            term = Terminal(dmrid=1, observers=[rec])
+            try:
+                with contextlib.redirect_stdout(io.StringIO()):
+                    for raw in pres[pn]:
+                        if isinstance(raw, tuple):  # a voice burst: the caller says so (vocoder frames carry no slot type)
+                            term.process_incoming_burst(Burst.from_bytes(raw[0], burst_type=_BT.Vocoder), 1)
+                        else:
+                            term.process_incoming_burst(Burst.from_bytes(raw), 1)
+            except Exception as e:  # noqa: BLE001  (C08's subject; here it only means the prehistory could not be played)
+                acc.case(nontrivial=False, outcome="prehistory_raises")
+                continue
+            opened = sum(1 for e in rec.events if e[0] == "started")
+            closed = sum(1 for e in rec.events if e[0] in ("data_ended", "voice_ended"))
+            if opened != closed:
+                acc.case(nontrivial=False, outcome="prehistory_leaves_a_transmission_open")
+                continue
+            second = Acc()
+            one_config(second, cfg, shared=(term, rec))
+            for sig, v in second.viol.items():
+                acc.violation("transmission_after_stray_bursts_on_the_same_terminal:" + sig, {"prehistory": pn, "cfg": list(cfg), "detail": (v[1] or [None])[0]},
+                              "a generated transmission received by a terminal that heard bursts of no transmission before: " + (v[2] or ""))
+            acc.case(nontrivial=True, calls=second.calls + len(pres[pn]), outcome=(pn, cfg[0], cfg[1]), sample={"prehistory": pn, "cfg": list(cfg)} if len(acc.samples) < 1 else None)
+        except Exception as e:  # noqa: BLE001
+            acc.violation("exception_in_pipeline:" + exc_sig(e), {"prehistory": pn, "cfg": list(cfg)}, repr(e))
+            acc.case()
+    return acc
+
+
 def boundary_lengths(max_len):
     out = set([0, 1, 2])
     for (rate, conf), (opb, opl) in OCTETS.items():
@@ -431,7 +495,35 @@ def run(only=None):
     for acc in par.pmap(worker_pairs, par.split_list(pairs, 64)):
         s.merge(acc)
     s.done()
-    rep.bounds = {"max_payload_length": max_len, "configurations": len(cfgs), "back_to_back_pairs": len(pairs)}
+    # header fields the generator copies nowhere else: addressing (group / individual, the two link-layer ids)
+    addr = [(g, d, a) for g in (False, True) for d, a in ((2305678, 2301234), (1, 0xFFFFFF), (0xFFFFFF, 1), (5, 5), (0, 0))]
+    acfgs = []
+    for r, c in [(r, c) for r in ("r12", "r34", "r1") for c in (False, True)]:
+        opb, opl = OCTETS[(r, c)]
+        for length in (0, opl + opb):
+            for k in (0, 1, 3):
+                for ad in addr:
+                    acfgs.append((r, c, length, k, 1, "counter", "ShortData", "one_by_one", ad))
+    s = rep.sub("header_addressing_variants",
+                f"{len(acfgs)} configurations: every rate and mode x 2 lengths x 0/1/3 preambles x group / individual header x 5 (destination, source) pairs incl. the "
+                "extremes: the same obligations (one started, one data ended, header handed over unchanged, payload, CRC-32, count-down)")
+    s.declared = len(acfgs)
+    for acc in par.pmap(worker, par.split_list(acfgs, 64)):
+        s.merge(acc)
+    s.done()
+    # stray bursts before the transmission, on the same terminal
+    pres = list(prehistories())
+    scfgs = reuse_pool()
+    s = rep.sub("after_stray_bursts_on_the_same_terminal",
+                f"{len(pres)} prehistories of bursts that belong to no transmission of ours (a lone voice terminator, a voice header + terminator, data blocks whose header was "
+                f"never heard, a whole earlier voice call, mixtures) x {len(scfgs)} configurations on one Terminal: whenever the prehistory left no transmission open "
+                "(as many 'ended' as 'started' notifications), the generated transmission that follows meets every obligation as if it were the first")
+    tasks = [(pn, cfg) for pn, _ in pres for cfg in scfgs]
+    s.declared = len(tasks)
+    for acc in par.pmap(worker_prehistory, par.split_list(tasks, 64)):
+        s.merge(acc)
+    s.done()
+    rep.bounds = {"max_payload_length": max_len, "configurations": len(cfgs), "back_to_back_pairs": len(pairs), "addressing_variants": len(acfgs), "prehistory_runs": len(tasks)}
     return rep.finish()
 
 
@@ -440,7 +532,15 @@ def replay(doc):
     SEAMS.install()
     bad = 0
     for c in doc.get("cases", []):
-        cfg = (c["rate"], c["confirmed"], c["length"], c["preambles"], c["colour_code"], c["fill"], c.get("sap", "ShortData"), c.get("mode", "one_by_one")) if "rate" in c else tuple(c["cfg"])
+        if "prehistory" in c:
+            acc = worker_prehistory([(c["prehistory"], tuple(tuple(x) if isinstance(x, list) else x for x in c["cfg"]))])
+            print("  after", c["prehistory"], c["cfg"], "->", {k: v[0] for k, v in acc.viol.items()} or "ok")
+            bad += len(acc.viol)
+            continue
+        if "cfg" in c:
+            cfg = tuple(tuple(x) if isinstance(x, list) else x for x in c["cfg"])
+        else:
+            cfg = (c["rate"], c["confirmed"], c["length"], c["preambles"], c["colour_code"], c["fill"], c.get("sap", "ShortData"), c.get("mode", "one_by_one"))
         acc = Acc()
         one_config(acc, cfg)
         print("  ", cfg, "->", {k: v[0] for k, v in acc.viol.items()} or "ok")
